@@ -129,7 +129,7 @@ def make_cfg(rng, events=("Probe",), long_steps=False):
     tgt = rng.sample(names, rng.randint(1, len(names)))
     cfg["PriceLimit"] = {"class": "PriceLimitRule", "targetMarkets": tgt, "triggerChangeRate": rng.choice([0.01, 0.03, 0.1])}
     cfg["Halt"] = {"class": "TradingHaltRule", "targetMarkets": rng.sample(names, rng.randint(1, len(names))), "triggerChangeRate": rng.choice([0.005, 0.02, 0.05]),
-                   "haltingTimeLength": rng.choice([1, 2, 5, 10])}
+                   "haltingTimeLength": rng.choice([1, 2, 5, 10, 0])}
     cfg["Mistake"] = {"class": "OrderMistakeShock", "target": rng.choice(names), "triggerTime": rng.randint(0, 3), "priceChangeRate": rng.choice([-0.1, 0.1, 0.3]),
                       "orderVolume": rng.randint(1, 50), "orderTimeLength": rng.randint(1, 5)}
     cfg["FShock"] = {"class": "FundamentalPriceShock", "target": rng.choice(names), "triggerTime": rng.randint(0, 3), "priceChangeRate": rng.choice([-0.2, 0.1]),
